@@ -348,7 +348,10 @@ def run(pm, ctx):
     run_decisions(pm, ctx, 'C10-RD', OWN['C10'])
     from .. import exprdrift
     exprdrift.run(pm, ctx, 'C10-RE', OWN['C10'])
-
+    ctx.import_rules(pm, 'C08', {'C08-R3'}, 'C10-R10',
+                     'the generated validators carry the declared pattern/format text exactly '
+                     '(through repr()), so what the compiler accepted is what the runtime checks '
+                     '(shared with C08-R3)')
 
 def emission_order(pm):
     """{generator method name: index of the top-level statement of
